@@ -44,6 +44,7 @@ type FnVC struct {
 	outOfSub   []string
 	top        *Frame
 	obs        []Observable
+	instName   string
 	modSet     []modTarget
 	modGlobals []string
 }
@@ -198,4 +199,14 @@ func GroundQuery(q string) string {
 		b.WriteByte('\n')
 	}
 	return b.String()
+}
+
+func (vc *FnVC) instSuffix() string {
+	if vc.instName == "" {
+		return ""
+	}
+	if i := strings.Index(vc.instName, "["); i >= 0 {
+		return strings.ReplaceAll(vc.instName[i:], modPrefix, "")
+	}
+	return ""
 }
